@@ -20,6 +20,28 @@ def par(params):
     return term('par', json.dumps(params, sort_keys=True))
 
 
+def nonces(value, label):
+    """Nonces of all state terms of actor `label` inside a raw term."""
+    found = set()
+
+    def walk(t):
+        if isinstance(t, (bytes, bytearray)):
+            t = json.loads(t.decode()) if t else NIL
+        if isinstance(t, (tuple, list)):
+            for x in t:
+                walk(x)
+            return
+        if not isinstance(t, dict):
+            return
+        if t.get('tag') == 'st' and t.get('label') == str(label) and len(t['args']) > 4:
+            found.add(t['args'][4]['label'])
+        for a in t.get('args', ()):
+            walk(a)
+
+    walk(value)
+    return found
+
+
 def canon(value):
     """Canonical hashable form of a term (or of tuples/lists of terms)."""
     return json.dumps(value, sort_keys=True)
@@ -62,7 +84,10 @@ class Stateful(Stateless):
         return self._model
 
     def train(self, features, labels, /):
-        self._model = term('st', self._label, par(self._params), self._model, features, labels)
+        # the trailing nonce identifies this very training execution: two separately trained instances are
+        # distinguishable even when they were trained on identical data (normalisation drops it)
+        import os
+        self._model = term('st', self._label, par(self._params), self._model, features, labels, term('nonce', os.urandom(6).hex()))
 
     def get_state(self):
         return json.dumps(self._model, sort_keys=True).encode()
